@@ -6,11 +6,13 @@ import YaegiVerif.Proofs.C06Dom
 /- Line-protocol front end for C06 (glue, not a proof obligation).
      unwind FUEL BODY      → y=<outcome> g=<outcome> d=<1 iff BODY is in the domain of the refinement theorem>
    BODY  = (STMT …)
-   STMT  = (print s) | (printarg) | (call BODY ARG show) | (defer BODY ARG) | (deferbin s ARG) | (deferdel t)
-         | (probe t) | (panic VAL) | (recover show) | (repanic) | (setres n) | (setouter n)
+   STMT  = (print s) | (printarg) | (call BODY ARG show) | (defer BODY ARG) | (defervar BODY ARG) | (deferbin s ARG)
+         | (deferdel t) | (deferpanic VAL) | (probe t) | (panic VAL) | (recover show) | (recoveris VAL) | (repanic)
+         | (setres n) | (setouter n)
    ARG   = (lit n) | param | res
    VAL   = (str s) | (int n) | (err s) | (fault kind)
-   outcome = <status>~<reusable>~<line>|<line>|…   (spaces inside a line are written `_`) -/
+   outcome = <status>~<reusable>~<line>|<line>|…   (spaces inside a line are written `_`)
+   status  = ok | panic:<printed value>:<dynamic type the host sees> | panic:? | crash | hang | fuel -/
 namespace YaegiVerif.Driver.C06
 open YaegiVerif YaegiVerif.Unwind
 
@@ -55,6 +57,15 @@ mutual
       | .list [.atom "defer", b, a] => do
         let f ← parseBody b; let a ← parseArg a
         some (.defer f a k)
+      | .list [.atom "defervar", b, a] => do
+        let f ← parseBody b; let a ← parseArg a
+        some (.deferVar f a k)
+      | .list [.atom "deferpanic", v] => do
+        let v ← parseVal v
+        some (.deferPanic v k)
+      | .list [.atom "recoveris", v] => do
+        let v ← parseVal v
+        some (.recoverIs v k)
       | .list [.atom "deferbin", .atom s, a] => do
         let a ← parseArg a
         some (.deferBin s a k)
@@ -80,14 +91,22 @@ mutual
       | _ => none
 end
 
-/-- how fmt prints the value; `re`: a reflect.Value inside a reflect.Value prints through Value.String() -/
+/-- how fmt prints the value. `re v` is a reflect.Value holding v: fmt prints what it holds; a reflect.Value held
+    by a reflect.Value prints through Value.String() (`<T Value>` unless it holds a string) -/
 def showVal : Val → String
   | .str s => s | .int n => toString n | .err s => s | .fault k => "fault:" ++ showFault k
-  | .re (.str s) => s
-  | .re (.int _) => "<int_Value>"
-  | .re (.err _) => "<error_Value>"
-  | .re (.fault k) => "fault:" ++ showFault k
-  | .re (.re _) => "<interface_{}_Value>"
+  | .re (.str s) => s | .re (.int n) => toString n | .re (.err s) => s | .re (.fault k) => "fault:" ++ showFault k
+  | .re (.re (.str s)) => s
+  | .re (.re (.int _)) => "<int_Value>"
+  | .re (.re (.err _)) => "<error_Value>"
+  | .re (.re (.fault _)) => "<interface_{}_Value>"
+  | .re (.re (.re _)) => "<interface_{}_Value>"
+
+/-- the dynamic type of interp.Panic.Value as the host sees it (run-time faults: not modelled, F06-5) -/
+def typeTag : Val → String
+  | .str _ => "string" | .int _ => "int" | .err _ => "error" | .fault _ => "fault"
+  | .re (.fault _) => "fault"       -- printed as a fault: the harness observes faults as kinds only
+  | .re _ => "reflect.Value"
 
 def showEvent : Event → String
   | .print s => s
@@ -97,10 +116,11 @@ def showEvent : Event → String
   | .recd (some v) => "rec_" ++ showVal v
   | .bin s n => s ++ "_" ++ toString n
   | .probe t p => "probe_" ++ toString t ++ "_" ++ toString p
+  | .recIs b => "is_" ++ toString b
 
 def showStatus : Status → String
-  | .ok => "ok" | .panicErr (some v) => "panic:" ++ showVal v | .panicErr none => "panic:?"
-  | .crash => "crash" | .fuel => "fuel"
+  | .ok => "ok" | .panicErr (some v) => "panic:" ++ showVal v ++ ":" ++ typeTag v | .panicErr none => "panic:?"
+  | .crash => "crash" | .hang => "hang" | .fuel => "fuel"
 
 def showOutcome (o : Outcome) : String :=
   showStatus o.status ++ "~" ++ (if o.reusable then "1" else "0") ++ "~" ++ "|".intercalate (o.out.map showEvent)
